@@ -90,6 +90,61 @@ def run(c):
             c.report("rich document %s (text variant %s): repeating serialise/parse/calculate changes it at %s (round %s)" % (name, mode, v[0][2].decode(), v[0][1]),
                      {"rich_document": name, "variant": mode, "result": r, "rerun": "bin/vharness c14rich work/c14rich",
                       "clause": "calculate -> serialise -> parse -> calculate yields byte-identical JSON (normalisers are idempotent)"})
+    # ---- noisy leaves: every string position of the four main rich documents (made valid) given, one at a time, texts that
+    # normalisers take apart in stages: what a pass leaves behind must not be something the next pass rewrites again
+    import richvalid
+    NOISE = ["user@example.com ", "foo!example.com", "0088:0192:123", " a  b ", "A--B", "x:y:z", "Á é", "+34 600 00", "#1", "a/b\\c", "1.2.3-", "(x)",
+             "AB1234:xyz", "www.example.com", "A&B", " 001 ", "x\ty", "ES ES", "a@b", "0192:123"]
+    nl, nn = [], []
+    rot = c.seed % 10
+    for f in sorted(_glob.glob(os.path.join(rich, "rich-bill-*.json"))):
+        bn = os.path.basename(f)
+        if "+" in bn or not any(k in bn for k in ("bill-invoice", "bill-order", "bill-delivery.", "bill-payment.")):
+            continue
+        base_d = richvalid.make_valid(json.load(open(f)))
+        seen_p = set()
+
+        def walk_(x, path):
+            if isinstance(x, dict):
+                for k, v in x.items():
+                    if not k.startswith("$") and k != "uuid":
+                        yield from walk_(v, path + [k])
+            elif isinstance(x, list):
+                for i, v in enumerate(x):
+                    yield from walk_(v, path + [i])
+            elif isinstance(x, str):
+                yield path
+        for pth in walk_(base_d, []):
+            gp = tuple("*" if isinstance(x, int) else x for x in pth)
+            if gp in seen_p:
+                continue
+            seen_p.add(gp)
+            for j, nv in enumerate(NOISE):
+                if quick and (sum(map(ord, "/".join(map(str, gp)))) + j) % 10 != rot and not (nv == "ES ES" and gp[-2:] == ("tax_id", "code") and gp[0] == "supplier"):
+                    continue
+                m = json.loads(json.dumps(base_d))
+                t = m
+                for x in pth[:-1]:
+                    t = t[x]
+                t[pth[-1]] = nv
+                nl.append("c04 fix " + w(json.dumps(m)))
+                nn.append((bn, "/".join(map(str, pth)), nv))
+    for (bn, pth, nv), r in zip(nn, run_go(nl)):
+        v = parse_wire(r)
+        c.count("noisy-leaf-fixpoint", 1, (bn, pth, nv))
+        if v and isinstance(v[0], list) and v[0] and v[0][0] == b"diff":
+            import re as _re2
+            cleaned = _re2.sub(r"[^A-Z0-9]", "", nv.upper())
+            # narrow matcher of C04-doubled-country-prefix: a tax identity code that, once cleaned, still starts with
+            # the country code after ONE prefix has been stripped (tax.NormalizeIdentity strips one per calculation)
+            fid = "C04-doubled-country-prefix" if (pth.endswith("tax_id/code") and cleaned.startswith("ESES") and v[0][2].decode().endswith("tax_id/code")) else None
+            if fid is None and shown >= 9:
+                continue
+            if fid is None:
+                shown += 1
+            c.report("%s with %r at %s: repeating serialise/parse/calculate changes the document at %s (round %s)" % (bn, nv, pth, v[0][2].decode(), v[0][1]),
+                     {"rich_document": bn, "path": pth, "value": nv, "result": r,
+                      "clause": "calculate -> serialise -> parse -> calculate yields byte-identical JSON (normalisers settle in one pass)"}, finding_id=fid)
     # ---- defaults: every example input and rich document with ONE optional member removed (top level and one level below):
     # whatever calculation fills in for the missing member must already be there after the first calculation
     dl, dn = [], []
